@@ -42,7 +42,10 @@ def impl(case):
                 if c in m.spike_clusters:
                     b = m.get_cluster_mean_waveforms(c)
                     means[str(c)] = dict(channels=[int(x) for x in b.channel_ids],
-                                         mean=np.asarray(b.mean_waveforms, dtype=np.float64).tolist())
+                                         mean=np.asarray(b.mean_waveforms, dtype=np.float64).tolist(),
+                                         # the other route to the dominant template: np.unique + argmax over the
+                                         # cluster's spikes (_get_template_from_spikes)
+                                         cluster_channels=[int(x) for x in m.get_cluster_channels(c)])
             out['means'] = means
         finally:
             m.close()
@@ -127,6 +130,11 @@ def judge(case, impl_res, ans):
             return 'MACHINERY: driver error in the cluster-mean query: %s' % m2['res'][0]['err']
         m2 = m2['res'][0]
         for (c, got), mm in zip(ok['means'].items(), m2['means']):
+            if mm['from_spikes'] != mm['dominant']:
+                return 'MACHINERY: the two dominant-template rules of the model differ (contradicts clusterTemplate_eq_dominant)'
+            if got['cluster_channels'] != ok['chans_u'][mm['from_spikes']]:
+                return ('SPEC: get_cluster_channels(%s) are not the channels of the dominant template %d (lowest id among the '
+                        'templates with the most spikes in the cluster)' % (c, mm['from_spikes']))
             if got['channels'] != mm['channels']:
                 return 'SPEC: get_cluster_mean_waveforms(%s) channels are not those of the dominant template' % c
             exp = [[DC.to_float(x) for x in row] for row in mm['mean']]
